@@ -214,6 +214,13 @@ func (w *world) ops(n int, phase string) {
 			if w.lastPut != nil {
 				w.lastPut[k] = ""
 			}
+			// "a delete removes it wherever it lives": right after an acknowledged Delete no fragment of any member holds the key
+			// (white box).  Not while the members move tables on their own (a Delete may overlap a move there), and not after a
+			// member was lost (the statement fixes the places of the copies after joins only).
+			if err == nil && w.c.Opts.Manual && w.leaves == 0 {
+				p, b := w.copies(k)
+				w.w.Emit(trace.Ev{"t": "copies", "k": k, "primaries": p, "backups": b, "wantb": 0, "assertb": false, "phase": "right after the Delete, " + phase})
+			}
 		}
 	}
 }
@@ -633,6 +640,19 @@ func TestC03(t *testing.T) {
 				for i := 0; i < 24; i++ {
 					w.keys = append(w.keys, fmt.Sprintf("k%d", i))
 				}
+				// the members' views of the routing table must agree before anything is judged; a scenario in which they do not
+				// (within 10 s, membership unchanged) is counted: too many of them make the run inconclusive
+				var desc []string
+				viewsOrNote := func() bool {
+					if w.waitViews() {
+						return true
+					}
+					mu.Lock()
+					sum.NotStabilised++
+					sum.Notes = append(sum.Notes, fmt.Sprintf("scenario %d %v: the members' routing tables did not agree within 10 s", s+1, desc))
+					mu.Unlock()
+					return false
+				}
 				pw.Emit(trace.Ev{"t": "reset", "seq": s + 1, "cfg": label})
 				w.ops(60, "initial")
 				// two more DMaps share the partitions (not asserted, they are there for the balancer to deal with): one with
@@ -652,7 +672,6 @@ func TestC03(t *testing.T) {
 				}
 				w.readAll("initial")
 				events := 1 + rng.Intn(3)
-				var desc []string
 				var held []*sched.Gate
 				ok := true
 				for e := 0; e < events && ok && !w.wedged; e++ {
@@ -674,7 +693,7 @@ func TestC03(t *testing.T) {
 						w.leaves++
 						w.sinceLeave = map[string]bool{}
 						w.hadB = map[string]bool{}
-						if !w.waitViews() {
+						if !viewsOrNote() {
 							ok = false
 							break
 						}
@@ -686,7 +705,7 @@ func TestC03(t *testing.T) {
 						if _, err := c.AddMember(); err != nil {
 							panic(err)
 						}
-						if !w.waitViews() {
+						if !viewsOrNote() {
 							ok = false
 							break
 						}
@@ -705,7 +724,7 @@ func TestC03(t *testing.T) {
 							if _, err := c.AddMember(); err != nil {
 								panic(err)
 							}
-							if !w.waitViews() {
+							if !viewsOrNote() {
 								ok = false
 								break
 							}
@@ -715,7 +734,7 @@ func TestC03(t *testing.T) {
 					}
 					// after the push, before any table moved
 					w.readAll("after push, before any move")
-					w.ops(12, "after push, before any move")
+					w.ops(20, "after push, before any move")
 					w.readAll("after push and operations")
 					for mv := 1; mv <= 2; mv++ {
 						if mv == 1 && joined && R >= 2 && len(c.Live()) > R && rng.Intn(2) == 0 {
@@ -751,7 +770,7 @@ func TestC03(t *testing.T) {
 								w.unsettled = true
 								w.sinceLeave = map[string]bool{}
 								w.hadB = map[string]bool{}
-								if !w.waitViews() {
+								if !viewsOrNote() {
 									ok = false
 									break
 								}
@@ -770,7 +789,7 @@ func TestC03(t *testing.T) {
 							w.readDuringMove(ctl, fmt.Sprintf("reads that overlap a table move (balancer run %d)", mv))
 						}
 						c.Balance()
-						if !w.waitViews() {
+						if !viewsOrNote() {
 							ok = false
 							break
 						}
@@ -969,6 +988,7 @@ func TestC02(t *testing.T) {
 						time.Sleep(time.Duration(rng.Intn(20)) * time.Millisecond)
 					}
 					c.Stop(victim, graceful)
+					w.leaves++
 					stable := w.waitViews()
 					time.Sleep(time.Duration(rng.Intn(60)) * time.Millisecond)
 					close(stopWorkload)
